@@ -224,6 +224,27 @@ theorem fire_arrived (s : Sys) (target : Nat) (hwf : WF cfg s) :
         simp [arrived, Sys.finish, held, hcl, delivered_append, this, dataOf_append, hsk]
       · exact ⟨hwf, fun _ => rfl⟩
 
+/-! ### end of stream -/
+
+theorem wake_arrived (s : Sys) (hwf : WF cfg s) :
+    WF cfg (wake s) ∧ ∀ extra, arrived cfg (wake s) extra = arrived cfg s extra := by
+  have wfIdle : ∀ t : Sys, t.client = .idle → WF cfg t := by intro t ht sk2 c2 h; rw [ht] at h; cases h
+  have pc : ∀ t : Nat, delivered [(t, Res.peerClosed)] = [] := fun _ => rfl
+  unfold wake
+  split
+  · cases hcl : s.client with
+    | idle => simp only; exact ⟨fun sk c h => hwf sk c (by rw [hcl] at h ⊢; exact h), fun _ => trivial⟩
+    | ackWait prev sk a c =>
+      simp only
+      refine ⟨wfIdle _ rfl, fun extra => ?_⟩
+      simp [arrived, Sys.finish, held, hcl, delivered_append, pc, List.append_assoc]
+    | reading sk c =>
+      have hsk : dataOf cfg sk = [] := hwf sk c hcl
+      simp only
+      refine ⟨wfIdle _ rfl, fun extra => ?_⟩
+      simp [arrived, Sys.finish, held, hcl, delivered_append, pc, dataOf_append, hsk]
+  · exact ⟨hwf, fun _ => rfl⟩
+
 /-! ### operations and executions -/
 
 theorem isIdle_eq {c : Client} (h : isIdle c = true) : c = .idle := by
@@ -254,8 +275,9 @@ theorem execOp_arrived (yields : Wire → Bool) (s : Sys) (op : Op) (hwf : WF cf
       split
       · exact keepDone _ (by intro d h; cases h)
       · obtain ⟨h1, h2⟩ := clientRun_arrived cfg { s with out := s.out ++ [(s.now, requestBytes cfg data)], client := .ackWait data [] (s.now + cfg.ackTimeout) (t.map (s.now + ·)) } (WF_ack cfg _ rfl)
-        refine ⟨h1, fun extra => ?_⟩
-        rw [h2]; simp [arrived, held, hidle]
+        obtain ⟨h1w, h2w⟩ := wake_arrived cfg _ h1
+        refine ⟨h1w, fun extra => ?_⟩
+        rw [h2w, h2]; simp [arrived, held, hidle]
   | read t =>
     simp only [execOp, Op.chunk, List.nil_append]
     split
@@ -269,15 +291,18 @@ theorem execOp_arrived (yields : Wire → Bool) (s : Sys) (op : Op) (hwf : WF cf
           simp only [Client.reading.injEq] at h
           rw [← h.1]; rfl
         obtain ⟨h1, h2⟩ := clientRun_arrived cfg _ hwf0
-        refine ⟨h1, fun extra => ?_⟩
-        rw [h2]; simp [arrived, held, hidle]
+        obtain ⟨h1w, h2w⟩ := wake_arrived cfg _ h1
+        refine ⟨h1w, fun extra => ?_⟩
+        rw [h2w, h2]; simp [arrived, held, hidle]
   | advance dt =>
     obtain ⟨h1, h2⟩ := fire_arrived cfg s (s.now + dt) hwf
     simp only [execOp, Op.chunk, List.nil_append]
     exact ⟨fun sk c h => h1 sk c h, fun extra => by rw [← h2]; rfl⟩
   | eof =>
     simp only [execOp, Op.chunk, List.nil_append]
-    exact ⟨fun sk c h => hwf sk c h, fun _ => rfl⟩
+    have hwf0 : WF cfg { s with eof := true } := fun sk c h => hwf sk c h
+    obtain ⟨h1w, h2w⟩ := wake_arrived cfg _ hwf0
+    exact ⟨h1w, fun extra => by rw [h2w]; rfl⟩
 
 theorem exec_arrived (yields : Wire → Bool) (ops : List Op) (s : Sys) (hwf : WF cfg s) :
     WF cfg (exec cfg yields s ops) ∧
